@@ -25,8 +25,12 @@ Definition oqclose (a b : option Q) : bool :=
   match a, b with Some x, Some y => qclose x y | None, None => true | _, _ => false end.
 Definition node_eqb (a b : nmrow) : bool :=
   (nm_uid a =? nm_uid b) && (nm_cid a =? nm_cid b) && (nm_deg a =? nm_deg b) && qclose (nm_cen a) (nm_cen b).
-Definition edge_eqb (a b : Z * Z * bool) : bool :=
-  (fst (fst a) =? fst (fst b)) && (snd (fst a) =? snd (fst b)) && Bool.eqb (snd a) (snd b).
+(* the implementation's flag is carried as option bool: NULL is not FALSE *)
+Definition obool_eqb (a b : option bool) : bool :=
+  match a, b with Some x, Some y => Bool.eqb x y | None, None => true | _, _ => false end.
+Definition edge_eqb (a b : Z * Z * option bool) : bool :=
+  (fst (fst a) =? fst (fst b)) && (snd (fst a) =? snd (fst b)) && obool_eqb (snd a) (snd b).
+Definition some_flag (r : Z * Z * bool) : Z * Z * option bool := (fst r, Some (snd r)).
 Definition cl_eqb (a : clrow) (b : Z * Z * Q * option Q * option Q) : bool :=
   match b with (cid, n, ne, den, cen) =>
     (cl_cid a =? cid) && (cl_n_nodes a =? n) && qclose (cl_n_edges a) ne
@@ -35,14 +39,14 @@ Definition cnt {A : Type} (eqb : A -> A -> bool) (x : A) (l : list A) : nat := l
 Definition bag_eqb {A : Type} (eqb : A -> A -> bool) (a b : list A) : bool :=
   Nat.eqb (length a) (length b) && forallb (fun x => Nat.eqb (cnt eqb x a) (cnt eqb x b)) (a ++ b).
 (* case: threshold, df_clustered, df_predict, implementation's nodes / edges / clusters tables *)
-Definition run_case (c : Q * list crow * list pedge * list nmrow * list (Z * Z * bool)
+Definition run_case (c : Q * list crow * list pedge * list nmrow * list (Z * Z * option bool)
                          * list (Z * Z * Q * option Q * option Q)) : bool :=
   match c with (thr, C, P, inodes, iedges, iclusters) =>
     let TE := truncated_edges thr P in
     let NM := graph_metrics_nodes C TE in
     let CL := graph_metrics_clusters NM in
     bag_eqb node_eqb NM inodes
-    && bag_eqb edge_eqb (graph_metrics_edges TE) iedges
+    && bag_eqb edge_eqb (map some_flag (graph_metrics_edges TE)) iedges
     && Nat.eqb (length CL) (length iclusters)
     && forallb (fun a => existsb (cl_eqb a) iclusters) CL
     && forallb (fun b => existsb (fun a => cl_eqb a b) CL) iclusters
@@ -381,7 +385,7 @@ def report_history(ctx, hist, k, reported):
          "threshold_zero": c["thr"] == 0, "metadata_present": c["meta_thr"] is not None}
     replay = {"history": small, "failing_call": last,
               "note": "ids are row indexes into history.nodes; thresholds and probabilities are k/1024"}
-    sn, se, sc = py_spec(cc)
+    sn, se, sc = py_spec(cc, definition=True)
     replay["specification"] = {"nodes": jsonable(sn), "edges": jsonable(se), "clusters": jsonable(sc)}
     if "raised" in res[last]:
         f["raises"] = res[last]["type"]
@@ -410,14 +414,15 @@ def frac(x):
 def canon(case, impl):
     idx = {comp_id(case, v): v for v in range(len(case["nodes"]))}
     nodes = sorted((idx[r["composite_unique_id"]], idx[r["cluster_id"]], int(r["node_degree"]), frac(r["node_centrality"])) for r in impl["nodes"])
-    edges = sorted((idx[r["composite_unique_id_l"]], idx[r["composite_unique_id_r"]], bool(r["is_bridge"])) for r in impl["edges"])
+    edges = sorted(((idx[r["composite_unique_id_l"]], idx[r["composite_unique_id_r"]], None if r["is_bridge"] is None else bool(r["is_bridge"]))
+                    for r in impl["edges"]), key=lambda t: (t[0], t[1], {None: 0, False: 1, True: 2}[t[2]]))
     clusters = sorted(((idx[r["cluster_id"]], int(r["n_nodes"]), frac(r["n_edges"]), frac(r["density"]), frac(r["cluster_centralisation"]))
                        for r in impl["clusters"]), key=lambda t: t[0])
     return nodes, edges, clusters
 
 
 # --------------------------------------------------------------------------------------------
-def py_spec(case):
+def py_spec(case, definition=False):
     """The definitions, computed directly (independent of the model): used to describe a
     failure and to classify it."""
     n = len(case["nodes"])
@@ -452,6 +457,8 @@ def py_spec(case):
         m = len(ms)
         sd = sum(deg[v] for v in ms)
         ne = Fraction(sd, 2)
+        if definition:      # the graph-theoretic definition: edges with both ends in the cluster (not SUM(degree)/2)
+            ne = Fraction(sum(1 for a, b in te if cl[a] == c and cl[b] == c))
         dens = ne / Fraction(m * (m - 1), 2) if m > 1 else None
         cen = Fraction(sum(max(deg[v] for v in ms) - deg[v] for v in ms), (m - 1) * (m - 2)) if m > 2 else None
         clusters.append((c, m, ne, dens, cen))
@@ -483,7 +490,7 @@ def case_term(case, impl):
     C = coq_list([f"({coq_Z(v)}, {coq_Z(case['clusters'][v])})" for v in range(n)], "crow")
     P = coq_list([f"({coq_Z(a)}, {coq_Z(b)}, {coq_Q(Fraction(p, DEN))})" for a, b, p in case["edges"]], "pedge")
     N = coq_list([f"({coq_Z(v)}, {coq_Z(c)}, {coq_Z(d)}, {coq_Q(q)})" for v, c, d, q in nodes], "nmrow")
-    E = coq_list([f"({coq_Z(a)}, {coq_Z(b)}, {coq_bool(f)})" for a, b, f in edges], "(Z * Z * bool)")
+    E = coq_list([f"({coq_Z(a)}, {coq_Z(b)}, {coq_opt(f, coq_bool)})" for a, b, f in edges], "(Z * Z * option bool)")
     K = coq_list([f"({coq_Z(c)}, {coq_Z(m)}, {coq_Q(ne)}, {coq_opt(d, coq_Q)}, {coq_opt(z, coq_Q)})" for c, m, ne, d, z in clusters],
                  "(Z * Z * Q * option Q * option Q)")
     return f"({coq_Q(Fraction(case['thr'], DEN))}, {C}, {P}, {N}, {E}, {K})"
@@ -540,7 +547,7 @@ def report(ctx, case, reported):
     which = py_diff(small, impl)
     f = {"tables": which, "multigraph": bool(small.get("multigraph")), "backend": small["backend"]}
     nodes, edges, clusters = canon(small, impl)
-    sn, se, sc = py_spec(small)
+    sn, se, sc = py_spec(small, definition=True)
     ctx.violation(f"compute_graph_metrics differs from the graph-theoretic definitions in {which or 'model comparison'} ({small['backend']})",
                   {"case": small,
                    "implementation": {"nodes": jsonable(nodes), "edges": jsonable(edges), "clusters": jsonable(clusters)},
